@@ -195,7 +195,10 @@ def check_cost_addends(chk, F, cls, f, ctx=None, first=True):
                       ("time-buffer", "the time cost is evaluated on the decoded durations, after the spline update"),
                       ("wp-buffer", "the waypoint cost is evaluated on the decoded waypoints"),
                       ("energy-source", "the energy is the workspace spline's, fetched once when the weight is positive"),
-                      ("update-once", "all terms refer to the one spline built from this decision vector")):
+                      ("update-once", "all terms refer to the one spline built from this decision vector"),
+                      ("decode-times", "that spline is built from the durations decoded from x"),
+                      ("decode-waypoints", "that spline and the waypoint cost use the waypoints decoded from x (reference elsewhere), on every path"),
+                      ("decode-bc", "that spline is built from the boundary state decoded from x (reference elsewhere)")):
         okv, detv = V.v[rid]
         chk.ob("C08-R1", "%s%s %s" % (cls, inst, text), okv, where, detv or "%d paths" % npaths, construct="%s/cost%s/%s" % (cls, inst, rid))
     # the by-reference accumulation inside the integral routine: cost += segment_costs[i] for all i, serially
